@@ -45,11 +45,12 @@ const (
 	opPolicy
 	opCrashAll
 	opRefused
+	opRawEntry
 	nOps
 )
 
 var opNames = [...]string{"end", "append", "joinlive", "send", "deliver", "publish", "crash", "restart", "partition", "heal",
-	"clockjump", "special", "setid", "algebra", "stall", "iter", "bounded", "byz", "denied", "reader", "tamper", "policy", "crashall", "refused"}
+	"clockjump", "special", "setid", "algebra", "stall", "iter", "bounded", "byz", "denied", "reader", "tamper", "policy", "crashall", "refused", "rawentry"}
 
 type Profile struct {
 	Prop    string
@@ -57,11 +58,11 @@ type Profile struct {
 	// which oracle families are evaluated
 	Check map[string]bool
 	// extra behaviour
-	LinkKey    bool // writers use a link-encrypting codec in (most) runs
-	CodecSwarm bool // draw the codec (default | link | pb) per run
-	CrashEnum  bool // C17: enumerate crash points over the write log
-	NoFaults   bool // source-building worlds: no fault kind enabled
-	MemOnly    bool // messages only in in-memory forms (no store loads while building)
+	LinkKey            bool // writers use a link-encrypting codec in (most) runs
+	CodecSwarm         bool // draw the codec (default | link | pb) per run
+	CrashEnum          bool // C17: enumerate crash points over the write log
+	NoFaults           bool // source-building worlds: no fault kind enabled
+	MemOnly            bool // messages only in in-memory forms (no store loads while building)
 	MinSteps, MaxSteps int
 }
 
@@ -82,6 +83,7 @@ func baseWeights() [nOps]int {
 	w[opAlgebra] = 2
 	w[opStall] = 2
 	w[opRefused] = 3
+	w[opByz] = 2
 	return w
 }
 
@@ -93,16 +95,16 @@ type durablePtr struct {
 }
 
 type Node struct {
-	Idx     int
-	W       *Writer
-	Log     *ipfslog.IPFSLog
-	Set     map[string]bool
-	Up      bool
-	Gen     int
-	Durable *durablePtr
-	Stalled int // remaining steps of stall
+	Idx        int
+	W          *Writer
+	Log        *ipfslog.IPFSLog
+	Set        map[string]bool
+	Up         bool
+	Gen        int
+	Durable    *durablePtr
+	Stalled    int // remaining steps of stall
 	ClockAhead bool
-	Pol     *policy
+	Pol        *policy
 
 	// C05 monitor state (per instance generation)
 	seen     map[string]string
@@ -125,32 +127,32 @@ type Msg struct {
 }
 
 type World struct {
-	R      *Run
-	P      *Profile
-	St     *Store
-	M      *Model
-	Cids   map[string]cid.Cid
-	Ent    map[string]iface.IPFSLogEntry // hash -> an honest in-memory entry object
-	ByHash bool
-	LogID  string
-	IO     iface.IO
-	Codec  string
+	R            *Run
+	P            *Profile
+	St           *Store
+	M            *Model
+	Cids         map[string]cid.Cid
+	Ent          map[string]iface.IPFSLogEntry // hash -> an honest in-memory entry object
+	ByHash       bool
+	LogID        string
+	IO           iface.IO
+	Codec        string
 	LinkKeyBytes []byte
-	Nodes  []*Node
-	Net    []*Msg
-	msgSeq int
-	Part   []int
-	Parted bool
-	Now    int64 // simulated ms
-	NW     int
-	PayloadBin bool
-	PCMode int
-	payloadSeq int
-	F      struct{ drop, dup, partition, crash, stall, clockjump, adderr bool }
-	Ptrs   []ptrRec
-	Foreign *ipfslog.IPFSLog
-	ctx    context.Context
-	step   int
+	Nodes        []*Node
+	Net          []*Msg
+	msgSeq       int
+	Part         []int
+	Parted       bool
+	Now          int64 // simulated ms
+	NW           int
+	PayloadBin   bool
+	PCMode       int
+	payloadSeq   int
+	F            struct{ drop, dup, partition, crash, stall, clockjump, adderr bool }
+	Ptrs         []ptrRec
+	Foreign      *ipfslog.IPFSLog
+	ctx          context.Context
+	step         int
 }
 
 func (w *World) sortFn() iface.EntrySortFn {
@@ -396,7 +398,7 @@ func (w *World) checkAppend(n *Node, e iface.IPFSLogEntry, me *MEntry, before []
 	}
 	if me.Time <= maxT {
 		r.Violate("C04:clock-time", "appended entry has time %d, log already holds time %d", me.Time, maxT)
-		}
+	}
 	if !n.ClockAhead && me.Time != maxT+1 {
 		r.Probe("append-time-gap")
 	}
@@ -1274,6 +1276,8 @@ func (w *World) dispatch(op int) {
 		w.doCrashAll()
 	case opRefused:
 		w.doRefused()
+	case opRawEntry:
+		w.doRawEntry()
 	default:
 		w.dispatchExt(op)
 	}
